@@ -1,4 +1,5 @@
 HOOK_COMMITS = ["14ff103", "c4cde07"]
+FIX_COMMITS = ["93d05da", "cf94d03", "10032fa"]
 NOTES = ("All claims are bounded (shape concrete, content symbolic); bounds, stubs and what lies outside are in DESIGN.md §5 "
          "and repeated in every evidence file. exit 2 = infrastructure/inconclusive, never reported as pass or violation.")
 TB = ("Trusted: Kani 0.68/CBMC 6.11 translation of the pinned nightly std (dev profile); smallvec replaced by an inline-array shim "
@@ -50,6 +51,29 @@ CLAIMED = {
              "advances exactly behind it (one-step induction); exhausted stays exhausted; Linkage size bookkeeping and leaf order on directly built dendrograms.",
         note=TB + " The merge loops of Linkage::{single,complete,average,union} (HashMap distance matrix) are outside; the induction over cursor positions is an argument, not a solver query."),
 }
+CLAIMED.update({
+    "C01": dict(
+        text="One-step obligations of the ancestor closure: add_parent / add_parent_unchecked record exactly the two inverse links; create_cache_of_grandparents from a state whose parents are cached "
+             "(0-2 parents, 0-2 ancestors each with arbitrary u32 ids, diamonds included, plus one recursive level) yields exactly parents + their ancestors, never the term itself; "
+             "parents_cached truth table; child_of / parent_of / *_ids answer exactly from the stored closure.",
+        note=TB + " That connect_all_terms composes the steps for every DAG shape and insertion order, and the obo/binary/sub_ontology paths, are outside (an argument, not a solver query)."),
+    "C04": dict(
+        text="Resnik, Lin, JC, Relevance, IC-coefficient, GraphIC on a fixed 4-term ontology for sibling / ancestor / identical / root pairs with all four information contents symbolic on the grid k/8 "
+             "(129^4 combinations): bit-equal to the formula, symmetric, finite, >= 0, never NaN; Mutation with empty annotation sets (1 for identical, 0 otherwise, never NaN); Builtins dispatch.",
+        note=TB + " Distance, Mutation with non-empty sets, other DAG shapes and off-grid IC values are outside; exp is a deterministic model; GraphIC's denominator accepted with or without the terms themselves."),
+    "C13": dict(
+        text="HpoSet::child_nodes, without/remove_obsolete, with_replaced/replace_obsolete, accessors (quick) and without/remove_modifier (thorough) on a direct-state 3-term ontology with symbolic ancestor ids, "
+             "obsolete flags, replacement ids (any u32) and modifier roots: exact member sets, in-place == copying.",
+        note=TB + " Hash-container aggregates (gene/disease id unions, categories(), information_content()), sets > 3 members and symbolic membership are outside."),
+    "C15": dict(
+        text="Builder::add_parent for all four presence combinations of parent/child id with symbolic pre-existing relation groups: Ok iff both exist, a rejected call changes no group of any term; "
+             "annotate_gene on a present term creates exactly one record and one link of that kind.",
+        note=TB + " One call from a symbolic pre-state per harness (not call sequences); annotate_* with an ABSENT term (suspected defect D3) does not finish symbolic execution and is not claimed."),
+    "C18": dict(
+        text="AnnotationDelta::delta over all subset pairs of a symbolic-id universe (2 quick / 3 thorough) and names in {a,b}: Some iff something differs; added = new minus old, removed = old minus new as exact "
+             "ascending lists; n_terms; accessor conventions; argument swap swaps added/removed.",
+        note=TB + " HpoTermDelta::new (HashSets), the enumeration over two whole ontologies, and comparison with a binary round trip are outside."),
+})
 NOT_APPLICABLE = {
     "C02": "observable state is membership in std HashSet/HashMap per term; symbolic membership in hashbrown does not finish symbolic execution (DESIGN §1, §5)",
     "C09": "entry points go through File::open/read_to_string/BufReader (not modelled by Kani) and string splitting over >=22-byte lines with symbolic lengths; out of CBMC reach (DESIGN §5)",
@@ -58,7 +82,7 @@ NOT_APPLICABLE = {
     "C16": "metamorphic relation between two whole constructions; one construction is already out of reach",
 }
 # properties whose harnesses are not built yet are listed as not (yet) claimed
-PENDING = ["C01", "C04", "C13", "C15", "C18"]
+PENDING = []
 for p in PENDING:
     if p not in CLAIMED:
         NOT_APPLICABLE[p] = "not claimed yet: harnesses under construction (planned in DESIGN.md §5)"
